@@ -13,5 +13,7 @@ git apply "$dst/patch.diff" || { echo "patch does not apply"; exit 2; }
 echo "== pinned suite with patch"; /venv/bin/python -m pytest -q -p no:cacheprovider --timeout=900 --continue-on-collection-errors 2>&1 | tail -1
 echo "== demo on patched tree"; /venv/bin/python "$dst/demo.py" /repo >/tmp/demo_patched.log 2>&1; echo "exit=$?"; tail -2 /tmp/demo_patched.log
 echo "== check $prop on patched tree"
+cp /verif/evidence/$prop.json /tmp/evidence_$prop.keep 2>/dev/null
 cd /verif && ./vcheck "$prop" "$@" 2>&1 | grep -E "VIOLATION|KNOWN|^C[0-9]+ \[|CHECKER|UNDECIDED" | cut -c1-260 | head -12
+cp /tmp/evidence_$prop.keep /verif/evidence/$prop.json 2>/dev/null  # evidence must describe a run on the unchanged tree
 cd /repo && git checkout -- . && git status --short | head -3
